@@ -1025,6 +1025,9 @@ func genArchive(c *ctx) {
 	// 12. every header the sender can produce decodes to itself: headers that compress arbitrarily well
 	c15Headers(c, tmp, roundTrip)
 
+	// 13. errors of the destination surface through the archive writer
+	c15DestFaults(c, tmp, &seq)
+
 	// 11. the archive stream as a source file: the compression decision around the 128 KiB
 	// point, and whole transfers of such streams with compression auto / yes / no
 	c15Stream(c, tmp)
@@ -2184,4 +2187,178 @@ func c15UndecodableHeader(rows []c15Row) int {
 		}
 	}
 	return -1
+}
+
+// ---------------------------------------------------------------------------------------
+// errors of the destination surface through the archive writer (Model/Archive.v aw_write_f)
+
+type c15FaultEntry struct {
+	rel   []string
+	dir   bool
+	data  []byte
+	fault string // "" | "full" (a link to /dev/full where the file will be created) | "isdir" (an existing directory) | "parent-file" (a file where its directory should be)
+}
+
+func c15DestFaults(c *ctx, tmp string, seq *int) {
+	if _, err := os.Stat("/dev/full"); err != nil {
+		c.count("dest-faults:skipped-no-dev-full")
+		return
+	}
+	blob := func(n int, b byte) []byte { return bytes.Repeat([]byte{b}, n) }
+	kinds := []struct {
+		name string
+		es   []c15FaultEntry
+	}{
+		{"control-no-fault", []c15FaultEntry{{rel: []string{"good"}, data: blob(30, 'g')}, {rel: []string{"d"}, dir: true}, {rel: []string{"d", "sub.bin"}, data: blob(3000, 's')}}},
+		{"dev-full-first-entry", []c15FaultEntry{{rel: []string{"sub.bin"}, data: blob(3000, 's'), fault: "full"}, {rel: []string{"good"}, data: blob(30, 'g')}}},
+		{"dev-full-after-good-entries", []c15FaultEntry{{rel: []string{"good"}, data: blob(30, 'g')}, {rel: []string{"empty"}}, {rel: []string{"d"}, dir: true},
+			{rel: []string{"d", "sub.bin"}, data: blob(3000, 's'), fault: "full"}, {rel: []string{"z"}, data: blob(10, 'z')}}},
+		{"dev-full-one-byte-file", []c15FaultEntry{{rel: []string{"good"}, data: blob(30, 'g')}, {rel: []string{"one"}, data: []byte("1"), fault: "full"}, {rel: []string{"z"}, data: blob(10, 'z')}}},
+		{"dev-full-200000-bytes", []c15FaultEntry{{rel: []string{"d"}, dir: true}, {rel: []string{"d", "sub.bin"}, data: blob(200000, 0), fault: "full"}}},
+		{"create-on-existing-directory", []c15FaultEntry{{rel: []string{"good"}, data: blob(30, 'g')}, {rel: []string{"sub.bin"}, data: blob(300, 's'), fault: "isdir"}}},
+		{"create-below-a-file", []c15FaultEntry{{rel: []string{"good"}, data: blob(30, 'g')}, {rel: []string{"d", "sub.bin"}, data: blob(300, 's'), fault: "parent-file"}}},
+	}
+	pipelineHung := false
+	for ki, k := range kinds {
+		ki, k := ki, k
+		c15Case(c, "dest-fault", k.name, func() {
+			dir := filepath.Join(tmp, fmt.Sprintf("fault%d", ki))
+			defer os.RemoveAll(dir)
+			srcDir := filepath.Join(dir, "src")
+			os.MkdirAll(srcDir, 0755)
+			var es []trzsz.VerifArchiveEntry
+			var nodes []c15Node
+			var fullSpecs, faultPaths []string
+			for i, e := range k.es {
+				ve := trzsz.VerifArchiveEntry{RelPath: append([]string{"r"}, e.rel...), IsDir: e.dir, Size: int64(len(e.data))}
+				if !e.dir {
+					ve.AbsPath = filepath.Join(srcDir, fmt.Sprintf("f%d", i))
+					os.WriteFile(ve.AbsPath, e.data, 0644)
+				}
+				es = append(es, ve)
+				nodes = append(nodes, c15Node{rel: e.rel, dir: e.dir, data: e.data})
+				if e.fault == "full" {
+					fullSpecs = append(fullSpecs, c15PathSpec(e.rel))
+				}
+			}
+			a := trzsz.VerifArchiveFromEntries("r", 0, es)
+			rd, err := a.NewReader()
+			if err != nil {
+				panic(err)
+			}
+			outs, end := c15Read(rd, nil, 32768, nil)
+			rd.Close()
+			if end != "eof" {
+				panic("reader: " + end)
+			}
+			stream := c15Concat(outs)
+			rootSrc, _ := a.RootSource()
+			rows := c15Rows(a)
+			prepare := func(rootDir string) {
+				for _, e := range k.es {
+					p := filepath.Join(append([]string{rootDir}, e.rel...)...)
+					switch e.fault {
+					case "full":
+						os.MkdirAll(filepath.Dir(p), 0755)
+						os.Symlink("/dev/full", p)
+						faultPaths = append(faultPaths, p)
+					case "isdir":
+						os.MkdirAll(p, 0755)
+					case "parent-file":
+						os.WriteFile(filepath.Dir(p), []byte("in the way"), 0644)
+					}
+				}
+			}
+			faulty := len(fullSpecs) > 0 || strings.HasPrefix(k.name, "create-")
+			c.count("dest-faults:" + k.name)
+
+			// (a) the writer alone: Write by Write, as writeAll would call it - but a (0, nil) ends the loop
+			dest := filepath.Join(dir, "dest-a")
+			os.MkdirAll(dest, 0755)
+			w, name, err := trzsz.VerifNewArchiveWriter(dest, rootSrc)
+			if err != nil || w == nil {
+				panic(fmt.Sprintf("no archive writer: %v", err))
+			}
+			faultPaths = nil
+			prepare(filepath.Join(dest, name))
+			segs := c.split(stream, []int{1, 7, 100, 1000, 40000}[c.rng.Intn(5)])
+			class, swallowed := "ok", ""
+		feed:
+			for si, sgm := range segs {
+				for off := 0; off < len(sgm); {
+					n, werr := w.Write(sgm[off:])
+					if werr != nil {
+						class = c15ErrClass(werr)
+						if strings.Contains(werr.Error(), "no space left") {
+							class = "write"
+						}
+						break feed
+					}
+					if n <= 0 {
+						swallowed = fmt.Sprintf("Write(%d bytes) of segment %d at offset %d returned (%d, nil)", len(sgm)-off, si, off, n)
+						class = "zero-nil"
+						break feed
+					}
+					off += n
+				}
+			}
+			w.Close()
+			for _, p := range faultPaths {
+				os.Remove(p) // the links to /dev/full must not be read back
+			}
+			res := class + "|" + c15CanonDisk(filepath.Join(dest, name))
+			desc := fmt.Sprintf("kind=%s entries=%s (the destination of every entry marked below fails) stream of %d bytes in %d segments", k.name, c15DescNodes(nodes), len(stream), len(segs))
+			if !strings.HasPrefix(k.name, "create-") {
+				fs := "-"
+				if len(fullSpecs) > 0 {
+					fs = strings.Join(fullSpecs, ";")
+				}
+				c.emit(true, "aw_fail", res, c15Table(rows), fs, hxs(segs))
+			}
+			if swallowed != "" {
+				c.violate("writer-swallows-error:"+k.name, "the archive writer answers a failing write of an entry's file with (0, nil): writeAll would call it again with the same bytes for ever",
+					desc+" :: "+swallowed)
+			} else if faulty && class == "ok" {
+				c.violate("writer-swallows-error:"+k.name, "the destination of an entry cannot be written, yet every Write of the archive writer succeeded", desc)
+			} else if strings.HasPrefix(k.name, "create-") && class != "create" {
+				c.violate("writer-wrong-error:"+k.name, "an entry that cannot be created must end the stream with the creation error", desc+" :: "+res)
+			} else if len(fullSpecs) > 0 && class != "write" {
+				c.violate("writer-wrong-error:"+k.name, "a failing write of an entry's file must end the stream with that write error", desc+" :: "+res)
+			} else if !faulty && class != "ok" {
+				c.violate("writer-error-without-fault:"+k.name, "the archive writer failed on a sound destination", desc+" :: "+res)
+			}
+
+			// (b) the real receiving pipeline (recvFileDataV2) with that writer, timeout 2 s
+			if pipelineHung {
+				c.count("dest-faults:pipeline-skipped-after-hang")
+				return
+			}
+			before := len(goroutinesOf("trzszTransfer).pipeline"))
+			destB := filepath.Join(dir, "dest-b")
+			os.MkdirAll(destB, 0755)
+			faultPaths = nil
+			t0 := time.Now()
+			errText, hung, _ := trzsz.VerifArchiveRecvV2(destB, rootSrc, prepare, stream, 2, 12*time.Second)
+			dur := time.Since(t0)
+			for _, p := range faultPaths {
+				os.Remove(p)
+			}
+			time.Sleep(300 * time.Millisecond)
+			left := len(goroutinesOf("trzszTransfer).pipeline")) - before
+			pdesc := fmt.Sprintf("%s :: recvFileDataV2 (timeout 2 s): hung=%v error=%q after %.1f s, pipeline goroutines left: %d", desc, hung, errText, dur.Seconds(), left)
+			switch {
+			case hung:
+				pipelineHung = true
+				c.violate("archive-write-error-hang:"+k.name, "the receiving pipeline never returns after the destination of an archive entry failed (the save stage keeps calling Write)", pdesc)
+			case faulty && errText == "":
+				c.violate("archive-write-error-accepted:"+k.name, "the receiver reports the file as received although an entry could not be written", pdesc)
+			case !faulty && errText != "":
+				c.violate("archive-pipeline-error-without-fault:"+k.name, "the receiving pipeline failed on a sound destination", pdesc)
+			}
+			if !hung && left > 0 {
+				c.violate("archive-write-error-leak:"+k.name, "goroutines of the receiving pipeline are left after it returned", pdesc)
+			}
+			c.note(true, "dest-fault pipeline "+k.name)
+		})
+	}
 }
